@@ -1,7 +1,7 @@
 //! C16 — vocabulary handling (trie, token sets, tokenizer adapters) matches a naive model.
 
 use crate::runner::{Ctx, Prop, Tier, R};
-use crate::util::{esc, frac, Fnv, B};
+use crate::util::{truncate_str, esc, frac, Fnv, B};
 use llguidance::toktrie::recognizer::{FunctionalRecognizer, StackRecognizer};
 use llguidance::toktrie::{AnythingGoes, SimpleVob, TokRxInfo, TokTrie, TokenizerEnv};
 use proptest::prelude::*;
@@ -398,8 +398,18 @@ impl C16 {
         let ws: Vec<Vec<u8>> = words.iter().map(|w| w.0.clone()).collect();
         let n = ws.len();
         let info = TokRxInfo::new(n as u32, frac(eos, n) as u32);
-        let trie = TokTrie::from(&info, &ws);
-        let desc = || format!("vocabulary {:?}", words.iter().map(|w| esc(&w.0)).collect::<Vec<_>>());
+        let longest = ws.iter().map(|w| w.len()).max().unwrap_or(0);
+        let trie = match std::panic::catch_unwind(|| TokTrie::from(&info, &ws)) {
+            Ok(t) => t,
+            Err(_) => {
+                let key = if longest > 1024 { "C16/token-longer-than-1024-bytes-panics" } else { "C16/trie-construction-panicked" };
+                return ctx.fail(key, || format!("TokTrie::from panicked on a vocabulary of {} tokens, longest {} bytes", n, longest));
+            }
+        };
+        if longest >= 300 {
+            ctx.class("trie:token_of_300_bytes_or_more");
+        }
+        let desc = || format!("vocabulary {:?}", words.iter().map(|w| truncate_str(&esc(&w.0), 60)).collect::<Vec<_>>());
         ctx.class("kind:trie");
         let has_dup = {
             let s: BTreeSet<&Vec<u8>> = ws.iter().filter(|w| !w.is_empty()).collect();
@@ -853,8 +863,16 @@ impl Prop for C16 {
         prop_oneof![
             3 => (size_strategy(), proptest::collection::vec(vob_op(), 1..30), prop_oneof![3 => Just(0u8), 2 => Just(1u8), 1 => Just(31u8), 1 => Just(32u8), 1 => Just(33u8)])
                 .prop_map(|(size, ops, cap)| Case::Vob { size, ops, cap }),
-            4 => (trie_words(), any::<u16>(), dfa_strategy(), proptest::collection::vec(word_strategy(), 0..4), bits(), proptest::collection::vec(text_strategy(), 0..4))
-                .prop_map(|(words, eos, dfa, starts, filter, texts)| Case::Trie { words, eos, dfa, starts, filter, texts }),
+            4 => (trie_words(), any::<u16>(), dfa_strategy(), proptest::collection::vec(word_strategy(), 0..4), bits(), proptest::collection::vec(text_strategy(), 0..4),
+                  proptest::option::weighted(0.08, prop_oneof![Just(300usize), Just(1023), Just(1024), Just(1025), Just(1500), Just(4000)]))
+                .prop_map(|(mut words, eos, dfa, starts, filter, texts, long)| {
+                    // one really long token (the statement lists long tokens): 'a' * len, plus its prefix so that it sits deep in the trie
+                    if let Some(len) = long {
+                        words.push(B(vec![b'a'; len]));
+                        words.push(B(vec![b'a'; len / 2]));
+                    }
+                    Case::Trie { words, eos, dfa, starts, filter, texts }
+                }),
             2 => (any::<bool>(), proptest::collection::vec(any::<(u16, u16)>(), 0..40), added, any::<u8>(), proptest::collection::vec(text_strategy(), 1..5))
                 .prop_map(|(byte_level, merges, added, space_char, texts)| Case::HfJson { byte_level, merges, added, space_char, texts }),
             1 => (300usize..nmax, proptest::collection::vec(any::<u16>(), 0..6), any::<u8>(), proptest::collection::vec(text_strategy(), 1..6))
@@ -865,7 +883,26 @@ impl Prop for C16 {
     fn run(&self, case: &Case, ctx: &mut Ctx) -> R {
         match case {
             Case::Vob { size, ops, cap } => self.run_vob(*size, ops, *cap, ctx),
-            Case::Trie { words, eos, dfa, starts, filter, texts } => self.run_trie(words, *eos, dfa, starts, filter, texts, ctx),
+            Case::Trie { words, eos, dfa, starts, filter, texts } => {
+                let longest = words.iter().map(|w| w.0.len()).max().unwrap_or(0);
+                let r = std::panic::catch_unwind(std::panic::AssertUnwindSafe(|| self.run_trie(words, *eos, dfa, starts, filter, texts, &mut *ctx)));
+                match r {
+                    Ok(r) => r,
+                    Err(e) => {
+                        let msg = e.downcast_ref::<String>().cloned().or_else(|| e.downcast_ref::<&str>().map(|s| s.to_string())).unwrap_or_default();
+                        // toktrie's StackRecognizer keeps its states in a fixed array of 300
+                        let key = if longest >= 300 && msg.contains("the len is 300 but the index is 300") {
+                            "C16/stack-recognizer-overflows-at-300-bytes"
+                        } else if longest > 1024 && msg.contains("num_parents <= (1 << PARENT_BITS)") {
+                            // the same assertion when a trie is rebuilt (filter)
+                            "C16/token-longer-than-1024-bytes-panics"
+                        } else {
+                            "C16/trie-walk-panicked"
+                        };
+                        ctx.fail(key, || format!("vocabulary with a longest token of {} bytes: panic: {}", longest, msg))
+                    }
+                }
+            }
             Case::HfJson { byte_level, merges, added, space_char, texts } => self.run_hf(*byte_level, merges, added, *space_char, texts, ctx),
             Case::TikToken { n, holes, specials, texts } => self.run_tiktoken(*n, holes, *specials, texts, ctx),
         }
